@@ -15,18 +15,21 @@
    saved : the terms saved (with_save) for a diagram with outputs by the BSS-type drivers
            L2 SavedTermsOK: every term is Clifford and the terms' linear maps sum to Den(g0).  Judged for the sequential,
            unsplit decomposer (one or two stages, either backend, re-used: the terms the target added).  Saving combined
-           with decompose_parallel or component splitting is outside the clause's quantifier (see SaveAnyMode).
+           with decompose_parallel or component splitting is outside the clause's quantifier (see SaveParallel).
    info  : never judged (statistics): max_terms vs nterms, the partial state, decompose_until_depth called twice,
            Sherlock parameters without a candidate, scalar() of an empty decomposer *)
 EXTENDS TraceLib, Decomp, FiniteSets, FiniteSetsExt
 VARIABLES l, g0, den0, viol, drift, stats
 vars == <<l, g0, den0, viol, drift, stats>>
-\* SWITCH (OFF): the saved-terms clause is quantified over "all graph-like diagrams with outputs and the BSS-only and
-\* BSS+cats drivers", not over the parallel / splitting modes.  The code does not keep it there: decompose_parallel works on
-\* clones whose `done` (and `nterms`) are dropped, and with component splitting the saved terms are terms of single
-\* components (on a diagram with outputs the component sub-diagrams lose their outputs and the run panics).  TRUE demands
-\* SavedTermsOK in every mode (optional patch for the parallel part: work/gD_fix_2_optional.diff).
-SaveAnyMode == FALSE
+\* The saved-terms clause is quantified over "all graph-like diagrams with outputs and the BSS-only and BSS+cats drivers",
+\* not over the parallel / splitting modes, and the code does not keep it there:
+\*  - with component splitting the saved terms are terms of single components (a product of sums cannot be a flat list),
+\*    and on a diagram with outputs the component sub-diagrams lose their outputs, so the run panics ("graph was not fully
+\*    reduced"): never judged, counted in saved_other_modes / saved_other_modes_bad;
+\*  - decompose_parallel works on clones whose `done` (and `nterms`) are dropped, so terms are missing.
+\* SWITCH (OFF): SaveParallel = TRUE demands SavedTermsOK for with_save + decompose_parallel (without splitting) too; it
+\* holds once the optional patch work/gD_fix_2_optional.diff (clones hand their saved terms and counts back) is applied.
+SaveParallel == FALSE
 Init == l = 1 /\ g0 = EmptyG /\ den0 = <<>> /\ viol = <<>> /\ drift = <<>>
         /\ stats = [hosts |-> 0, steps |-> 0, runs |-> 0, saved |-> 0, nontrivial |-> 0, l1same |-> 0,
                     two_stage |-> 0, two_stage_split |-> 0, reuse_runs |-> 0, hash_events |-> 0, standard_runs |-> 0, sherlock_tries |-> 0,
@@ -88,7 +91,7 @@ Step(e) ==
          /\ UNCHANGED <<g0, den0, drift>>
     [] e.k = "saved" ->
          LET other == Flag(e, "par") \/ Flag(e, "split")
-             judged == SaveAnyMode \/ ~other
+             judged == ~other \/ (SaveParallel /\ ~Flag(e, "split"))
              ok == /\ e.res = "ok"
                    /\ LET terms == [i \in 1..Len(e.terms) |-> FromAbs(e.terms[i])] IN
                       Len(terms) > 0 /\ (\A i \in 1..Len(terms) : TCount(terms[i]) = 0) /\ SumDen(terms) = den0
